@@ -17,12 +17,20 @@ import (
 	"golang.org/x/tools/go/ssa"
 )
 
+// counterCarriedOnly: only counters that are handed from call to call (parameters) count. A counter kept in the parser or
+// in the template being compiled starts anew in every template: it bounds the nesting inside one source, not a cycle
+// that passes through the loading of another template.
+var counterCarriedOnly = false
+
 // isCounter: x, compared with a constant in f, counts levels: a load of an integer field that f itself adds to (p.depth
 // += n; p.template.level++), or an integer parameter of an unexported function for which every call site passes a
 // constant or `something + k` with k > 0 (fromFile(name, depth+1)). `arguments.Remaining() > 0` or `level > 1` in a
 // function that does not count are ordinary tests, not depth steps.
 func isCounter(p *Prog, f *ssa.Function, x ssa.Value) bool {
 	if !isIntType(x.Type()) {
+		return false
+	}
+	if _, isParam := x.(*ssa.Parameter); counterCarriedOnly && !isParam {
 		return false
 	}
 	fieldOf := func(v ssa.Value) (*ssa.FieldAddr, bool) {
@@ -178,6 +186,7 @@ func ruleC01Recursion(p *Prog, a *Anchors, r *Report) {
 	nGuarded := 0
 	stepSeen := map[string]bool{}
 	full := map[*ssa.Function][]*ssa.Function{}
+	allEdges := map[*ssa.Function][]edge{}
 	var removed []struct {
 		from *ssa.Function
 		e    edge
@@ -233,6 +242,7 @@ func ruleC01Recursion(p *Prog, a *Anchors, r *Report) {
 				continue
 			}
 			full[f] = append(full[f], g)
+			allEdges[f] = append(allEdges[f], edge{g, site})
 			if behindDepthStep(p, site) {
 				nGuarded++
 				removed = append(removed, struct {
@@ -355,6 +365,42 @@ func ruleC01Recursion(p *Prog, a *Anchors, r *Report) {
 	}
 	if nGuarded == 0 {
 		r.Bad("depth-steps", "-", "no call of the compile-time call graph stands behind a depth step at all")
+	}
+	// cycles through the loading of another template: only a counter that is carried along (a depth parameter) bounds
+	// them — the parser's and the template's own counters start at zero in every template
+	if a.NewTemplate != nil {
+		counterCarriedOnly = true
+		adj2 := map[*ssa.Function][]*ssa.Function{}
+		for f, es := range allEdges {
+			for _, e := range es {
+				if !behindDepthStep(p, e.site) {
+					adj2[f] = append(adj2[f], e.to)
+				}
+			}
+		}
+		counterCarriedOnly = false
+		// does the constructor reach itself?
+		seen := map[*ssa.Function]bool{}
+		work := append([]*ssa.Function{}, adj2[a.NewTemplate]...)
+		cyc := false
+		for len(work) > 0 {
+			x := work[len(work)-1]
+			work = work[:len(work)-1]
+			if x == a.NewTemplate {
+				cyc = true
+				break
+			}
+			if seen[x] {
+				continue
+			}
+			seen[x] = true
+			work = append(work, adj2[x]...)
+		}
+		if cyc {
+			r.Bad("cycle through template loading", p.Pos(a.NewTemplate.Pos()), "compiling a template can load and compile another one (extends, include, import, ssi) and so on without passing a depth step whose counter is carried from template to template: templates that refer to each other in a cycle (or a long chain) recurse until the stack is exhausted")
+		} else {
+			r.OK("cycle through template loading", p.Pos(a.NewTemplate.Pos()), "every path from the template constructor back to itself passes a depth step on a counter that is handed from template to template")
+		}
 	}
 	_ = sort.Strings
 }
@@ -632,5 +678,165 @@ func ruleC01UserMethods(p *Prog, a *Anchors, r *Report) {
 	}
 	if n == 0 {
 		r.Trivial("none", "-", "no direct String()/Error() call on asserted caller data reachable from execution")
+	}
+}
+
+// R-C01-BUDGET. Two bounds multiply on the stack: a macro (or a nested execution) may recurse K_exec activations deep,
+// and every activation puts the nesting of its body — at most K_nest counted levels of tags plus K_nest of expressions —
+// in between. A stack overflow ends the process and cannot be recovered from, so the PRODUCT has to stay below what Go's
+// fixed 1 GB stack limit holds. The rule reads the constants off the depth steps and decides the arithmetic; the bytes
+// per level are an estimate (a few hundred: 3·10⁶ level·activations were observed to fit, 5·10⁶ not), stated here and
+// not derived.
+const stackBudgetLevels = 2500000
+
+func ruleC01Budget(p *Prog, a *Anchors, r *Report) {
+	r.Begin("R-C01-BUDGET", "the compile-time nesting bound times the largest execution-time recursion bound (macro depth, template depth) stays within the stack budget: 2·K_nest·K_exec ≤ 2.5·10⁶ counted levels", 1)
+	ctxPtr := types.NewPointer(a.ExecCtx)
+	boundsOf := func(f *ssa.Function, pred func(x ssa.Value) bool) []int64 {
+		var out []int64
+		for _, b := range f.Blocks {
+			iff, ok := b.Instrs[len(b.Instrs)-1].(*ssa.If)
+			if !ok {
+				continue
+			}
+			c, pol := normCond(iff.Cond, true)
+			bo, ok := c.(*ssa.BinOp)
+			if !ok || (bo.Op != token.GTR && bo.Op != token.GEQ) {
+				continue
+			}
+			k, isK := constInt(bo.Y)
+			if !isK || !pred(bo.X) {
+				continue
+			}
+			idx := 0
+			if !pol {
+				idx = 1
+			}
+			if errorReturnsOnly(f, b.Succs[idx]) {
+				out = append(out, k)
+			}
+		}
+		return out
+	}
+	var kNest, kExec int64
+	var nestAt, execAt string
+	creach, ereach := a.CompileReach(), a.ExecReach()
+	for _, f := range p.inPkgFuncsSorted(p.allFuncSet()) {
+		if errorResultIndex(f) < 0 {
+			continue
+		}
+		if creach[f] {
+			// a field counter of the parser / the template under construction
+			for _, k := range boundsOf(f, func(x ssa.Value) bool {
+				u, ok := x.(*ssa.UnOp)
+				if !ok || u.Op != token.MUL {
+					return false
+				}
+				fa, ok := u.X.(*ssa.FieldAddr)
+				if !ok {
+					return false
+				}
+				n := structOf(fa.X.Type())
+				return n != nil && (n.Obj().Name() == "Parser" || n.Obj().Name() == "Template") && isCounter(p, f, x)
+			}) {
+				if k > kNest {
+					kNest, nestAt = k, p.FuncName(f)
+				}
+			}
+		}
+		if ereach[f] {
+			for _, k := range boundsOf(f, func(x ssa.Value) bool {
+				u, ok := x.(*ssa.UnOp)
+				if !ok || u.Op != token.MUL {
+					return false
+				}
+				fa, ok := u.X.(*ssa.FieldAddr)
+				return ok && types.Identical(fa.X.Type(), ctxPtr) && isIntType(u.Type())
+			}) {
+				if k > kExec {
+					kExec, execAt = k, p.FuncName(f)
+				}
+			}
+		}
+	}
+	switch {
+	case kNest == 0:
+		r.Bad("nesting × recursion", "-", "no constant bound on the nesting of a source was found (a parser/template counter compared with a constant, refusing with an error): one activation of a macro can put arbitrarily many frames on the stack")
+	case kExec == 0:
+		r.Unk("nesting × recursion", "-", "no execution-time recursion bound on an ExecutionContext counter was found")
+	case 2*kNest*kExec > stackBudgetLevels:
+		r.Bad("nesting × recursion", "-", "nesting bound %d (%s) × recursion bound %d (%s): 2·%d·%d = %d counted levels can be on the stack at once, more than the %d that fit Go's 1 GB limit at a few hundred bytes each — a macro whose body nests its recursive call deeply exhausts the stack before the depth error is reached, which ends the process", kNest, nestAt, kExec, execAt, kNest, kExec, 2*kNest*kExec, stackBudgetLevels)
+	default:
+		r.OK("nesting × recursion", "-", "nesting bound %d (%s) × recursion bound %d (%s): 2·%d·%d = %d ≤ %d counted levels", kNest, nestAt, kExec, execAt, kNest, kExec, 2*kNest*kExec, stackBudgetLevels)
+	}
+}
+
+// R-C01-COUNTERS. The recursion bounds of an execution (macro depth, template depth) live in the ExecutionContext. Tags
+// derive contexts from contexts (for, with, macro bodies, Super …): a derived context that starts a counter at zero
+// gives everything that runs in it a fresh allowance — a macro defined inside a macro body recursed 1000 × 1000 deep.
+// Every function that builds an ExecutionContext out of another one has to carry each integer counter over.
+func ruleC01Counters(p *Prog, a *Anchors, r *Report) {
+	r.Begin("R-C01-COUNTERS", "every function that derives an ExecutionContext from another one (takes a context, returns a freshly allocated one) stores each integer counter field of the new context from the same field of the context it was given", 1)
+	ctxPtr := types.NewPointer(a.ExecCtx)
+	st := a.ExecCtx.Underlying().(*types.Struct)
+	var counters []int
+	for i := 0; i < st.NumFields(); i++ {
+		if b, ok := st.Field(i).Type().Underlying().(*types.Basic); ok && b.Info()&types.IsInteger != 0 {
+			counters = append(counters, i)
+		}
+	}
+	n := 0
+	for _, f := range p.inPkgFuncsSorted(p.allFuncSet()) {
+		if f.Parent() != nil || f.Signature.Results().Len() != 1 || !types.Identical(f.Signature.Results().At(0).Type(), ctxPtr) {
+			continue
+		}
+		parent := paramOfType(f, ctxPtr)
+		if parent == nil {
+			continue
+		}
+		// returns a context it allocates
+		var fresh *ssa.Alloc
+		for _, ret := range returnsOf(f) {
+			if al, ok := stripLoad(ret.Results[0]).(*ssa.Alloc); ok {
+				fresh = al
+			}
+		}
+		if fresh == nil {
+			continue
+		}
+		for _, ci := range counters {
+			n++
+			key := p.FuncName(f) + ":carries " + st.Field(ci).Name()
+			carried := false
+			for _, b := range f.Blocks {
+				for _, in := range b.Instrs {
+					s, ok := in.(*ssa.Store)
+					if !ok {
+						continue
+					}
+					fa, ok := s.Addr.(*ssa.FieldAddr)
+					if !ok || fa.Field != ci || stripLoad(fa.X) != ssa.Value(fresh) {
+						continue
+					}
+					v := s.Val
+					if bo, isBo := v.(*ssa.BinOp); isBo && bo.Op == token.ADD {
+						v = bo.X
+					}
+					if u, isU := v.(*ssa.UnOp); isU && u.Op == token.MUL {
+						if fb, isF := u.X.(*ssa.FieldAddr); isF && fb.Field == ci && unspillParam(fb.X) == ssa.Value(parent) {
+							carried = true
+						}
+					}
+				}
+			}
+			if carried {
+				r.OK(key, p.Pos(f.Pos()), "the derived context continues the counter of the context it comes from")
+			} else {
+				r.Bad(key, p.Pos(f.Pos()), "%s builds a context from another one without carrying over ExecutionContext.%s: what runs in the derived context (the body of a for/with, a macro defined inside a macro) counts from zero again, so the recursion bound no longer bounds the stack", p.FuncName(f), st.Field(ci).Name())
+			}
+		}
+	}
+	if n == 0 {
+		r.Unk("none", "-", "no function derives an ExecutionContext from another one (or the context has no integer counter)")
 	}
 }
